@@ -37,6 +37,7 @@ type UnitSpec struct {
 	Exclude       []string `json:"exclude"`  // substrings of obligation names not counted for this property
 	Only          []string `json:"only"`     // if set: only obligations containing one of these
 	UnreachableOK []string `json:"unreachable_ok"`
+	Also          bool     `json:"also"` // verify against the function's second contract
 	swept         bool
 }
 
@@ -220,7 +221,7 @@ func runCheck(id, tier, repo, keep string, writeEvidence bool) int {
 			engErrs = append(engErrs, err.Error())
 			continue
 		}
-		u := eng.VerifyFunction(fn, VerifyOpts{IgnoreRequires: us.Unconstrained, SafetyOnly: us.SafetyOnly})
+		u := eng.VerifyFunction(fn, VerifyOpts{IgnoreRequires: us.Unconstrained, SafetyOnly: us.SafetyOnly, Also: us.Also})
 		units = append(units, u)
 		funcsUnderContract = append(funcsUnderContract, strings.TrimPrefix(full, modulePath+"/internal/"))
 		for _, e := range u.errs {
